@@ -1,5 +1,11 @@
 use rowan::TextSize;
 
+/// Length of `text` in UTF-16 code units, the unit of LSP `Position::character`
+/// when no other position encoding has been negotiated.
+fn utf16_len(text: &str) -> usize {
+    text.chars().map(char::len_utf16).sum()
+}
+
 #[derive(Debug, Clone)]
 pub struct LineIndex {
     line_offsets: Vec<u32>,
@@ -13,8 +19,10 @@ impl LineIndex {
         line_offsets.push(0);
 
         let mut is_line_only_ascii = true;
-        for (index, byte) in text.as_bytes().iter().copied().enumerate() {
-            if byte == b'\n' {
+        let bytes = text.as_bytes();
+        for (index, byte) in bytes.iter().copied().enumerate() {
+            // LSP: a line ends at `\n`, `\r\n` or a lone `\r`
+            if byte == b'\n' || (byte == b'\r' && bytes.get(index + 1) != Some(&b'\n')) {
                 line_offsets.push((index + 1) as u32);
                 line_only_ascii_vec.push(is_line_only_ascii);
                 is_line_only_ascii = true;
@@ -76,7 +84,7 @@ impl LineIndex {
             Some(usize::from(offset - start_offset))
         } else {
             let text = &source_text[usize::from(start_offset)..usize::from(offset)];
-            Some(text.chars().count())
+            Some(utf16_len(text))
         }
     }
 
@@ -87,16 +95,25 @@ impl LineIndex {
             Some((line, usize::from(offset - start_offset)))
         } else {
             let text = &source_text[usize::from(start_offset)..usize::from(offset)];
-            Some((line, text.chars().count()))
+            Some((line, utf16_len(text)))
         }
     }
 
-    /// Offset of the end of the content of `line`: the position of its `\n`, or the end of the text
+    /// Offset of the end of the content of `line`: the position of its terminator, or the end of the text
     /// for the last line. A column past the end of a line is clamped to this offset (LSP `Position`).
     fn line_end_offset(&self, line: usize, source_text: &str) -> usize {
         let start = self.line_offsets[line] as usize;
         let end = match self.line_offsets.get(line + 1) {
-            Some(next_start) => (*next_start as usize).saturating_sub(1),
+            Some(next_start) => {
+                // step back over the terminator: `\n`, `\r` or `\r\n`
+                let end = (*next_start as usize).saturating_sub(1);
+                let bytes = source_text.as_bytes();
+                if end > start && bytes.get(end) == Some(&b'\n') && bytes.get(end - 1) == Some(&b'\r') {
+                    end - 1
+                } else {
+                    end
+                }
+            }
             None => source_text.len(),
         };
         end.min(source_text.len()).max(start.min(source_text.len()))
@@ -118,12 +135,13 @@ impl LineIndex {
             let mut offset = 0;
             let mut col = col;
             for c in source_text[line_start..line_end].chars() {
-                if col == 0 {
+                // columns are UTF-16 code units; a column inside a surrogate pair rounds down
+                if col < c.len_utf16() {
                     break;
                 }
 
                 offset += c.len_utf8();
-                col -= 1;
+                col -= c.len_utf16();
             }
             Some(start_offset + TextSize::from(offset as u32))
         }
@@ -149,12 +167,13 @@ impl LineIndex {
             let mut offset = 0;
             let mut col = col;
             for c in source_text[line_start..line_end].chars() {
-                if col == 0 {
+                // columns are UTF-16 code units; a column inside a surrogate pair rounds down
+                if col < c.len_utf16() {
                     break;
                 }
 
                 offset += c.len_utf8();
-                col -= 1;
+                col -= c.len_utf16();
             }
             Some(TextSize::from(offset as u32))
         }
